@@ -94,6 +94,8 @@ type S struct {
 	// expired[tid]: the deadline of every timed wait of thread tid counts as reached
 	// (virtual time of the sched/time shim; set by the controller between steps)
 	expired map[int]bool
+	// ticks[tid]: remaining tick budget of thread tid's current timed wait (SetTicksSelf)
+	ticks map[int]int
 	// Procs, when > 0, is what the runtime shim's GOMAXPROCS reports while this scheduler
 	// is active (a scheduler-chosen input: code that branches on GOMAXPROCS(0) == 1 is
 	// then driven through that branch deterministically).
@@ -130,6 +132,43 @@ func Controlled() (under, expired bool) {
 		return false, false
 	}
 	return true, s.expired[s.cur.ID]
+}
+
+// SetTicksSelf (called by a logical thread at the start of a timed call) gives the calling
+// thread a tick budget: its next n deadline tests report "not reached", the one after that
+// and all later ones "reached" — the deadline is observed on the (n+1)-th tick.  The budget
+// is part of the case (replayable), unlike a controller-side `expire` line it can fall on the
+// very tick on which the awaited event happens.
+func SetTicksSelf(n int) {
+	s := active.Load()
+	if s == nil || s.cur == nil {
+		return
+	}
+	if s.ticks == nil {
+		s.ticks = map[int]int{}
+	}
+	s.ticks[s.cur.ID] = n
+}
+
+// DeadlineReached is the deadline test of the calling logical thread's timed wait: reached
+// when the controller said `expire <tid>`, or when the thread's tick budget (if it has
+// one) is used up; otherwise one tick of the budget is consumed.
+func DeadlineReached() (under, reached bool) {
+	s := active.Load()
+	if s == nil || s.cur == nil {
+		return false, false
+	}
+	id := s.cur.ID
+	if s.expired[id] {
+		return true, true
+	}
+	if n, ok := s.ticks[id]; ok {
+		if n == 0 {
+			return true, true
+		}
+		s.ticks[id] = n - 1
+	}
+	return true, false
 }
 
 var (
